@@ -94,7 +94,24 @@ def check_tok(case) -> Res:
     return canon_check(x, [wrap, joiner, list(seq)])
 
 
+def _esc(s: str) -> str:
+    return s.replace("\\", "\\\\").replace('"', '\\"').replace("\n", "\\n").replace("\t", "\\t")
+
+
+QWRAPS = {"assign": 'K::"{q}"\n', "list2": 'K::["{q}",z]\n', "imap": 'K::[k::"{q}"]\n', "meta": '===D===\nMETA:\n  K::"{q}"\n---\nZ::1\n===END===\n'}
+
+
+def check_qstr(case) -> Res:
+    """Every short string, spelled as a QUOTED value: the canonicaliser decides bare-vs-quoted; the result must be a fixed point."""
+    wrap, seq = case
+    s = "".join(seq)
+    x = QWRAPS[wrap].replace("{q}", _esc(s))
+    return canon_check(x, [wrap, list(seq)])
+
+
 def run(ctx):
+    from .c04 import SIGMA4
+    ctx.explore("quoted_strings", Product(sorted(QWRAPS), Sequences(SIGMA4, 3 if ctx.quick else 4)), check_qstr, chunk=4000)
     L = 3 if ctx.quick else 4
     ctx.coverage["bounds"] = {"token_seq_len": L, "alphabet": T, "wrappings": sorted(WRAPS), "joiners": ["", " "]}
     ctx.explore("tokens", Product(sorted(WRAPS), ["", " "], Sequences(T, L, 1)), check_tok, chunk=3000)
@@ -111,6 +128,8 @@ def replay(ctx, rp):
     case = rp["case"]
     if sub == "tokens":
         return check_tok((case[0], case[1], tuple(case[2]))).violations
+    if sub == "quoted_strings":
+        return check_qstr((case[0], tuple(case[1]))).violations
     from . import c01_model
     return c01_model.replay(ctx, rp)
 
